@@ -452,8 +452,18 @@ theorem cinv_same_profiles {c : Cfg} {s s' : CSt} (hI : CInv c s) (hsp : s'.sp =
   ⟨by rw [hsh, hsp]; exact hI.shared, by rw [how, hop]; exact hI.own,
    fun j seen hj => by rw [prof_of hsp hop]; exact hI.wait j seen (hw ▸ hj), by rw [hop, hw]; exact hI.lens⟩
 
+/-- what a step of the pool over composite profiles is for the fine pool, when it is one: a section that concludes a
+`Next()` is the atomic access `inc`, the reader section of `Left()` the atomic access `load` -/
+def feOf : CEv → FEv
+  | .rsec i => .inc i
+  | .wsec i => .inc i
+  | .nextRet i ok => .nextRet i ok
+  | .lsec i => .load i
+  | .leftRet i l => .leftRet i l
+  | .other e => .other e
+
 theorem cstep_spec {c : Cfg} {parts : List Nat} (hparts : tot parts = c.tokens) {s s' : CSt} {e : CEv} (hI : CInv c s)
-    (h : cstep c parts s e = some s') : (s'.f = s.f ∨ ∃ fe, fstep c s.f fe = some s'.f) ∧ CInv c s' := by
+    (h : cstep c parts s e = some s') : (s'.f = s.f ∨ fstep c s.f (feOf e) = some s'.f) ∧ CInv c s' := by
   cases e with
   | rsec i =>
     simp only [cstep] at h
@@ -469,11 +479,11 @@ theorem cstep_spec {c : Cfg} {parts : List Nat} (hparts : tot parts = c.tokens) 
         | true =>
           obtain ⟨h1, h2⟩ := rsec_ret_true hr
           obtain ⟨hf, hI'⟩ := conclude_spec hI hpend (fun _ => h1) (fun hx => by cases hx) h2 h
-          exact ⟨.inr ⟨_, hf⟩, hI'⟩
+          exact ⟨.inr hf, hI'⟩
         | false =>
           obtain ⟨h1, h2⟩ := rsec_ret_false hr
           obtain ⟨hf, hI'⟩ := conclude_spec hI hpend (fun hx => by cases hx) (fun _ => ⟨h1, h2⟩) (h1 ▸ evolves_refl _) h
-          exact ⟨.inr ⟨_, hf⟩, hI'⟩
+          exact ⟨.inr hf, hI'⟩
       | wait seen =>
         simp only [Option.some.injEq] at h
         subst h
@@ -500,11 +510,11 @@ theorem cstep_spec {c : Cfg} {parts : List Nat} (hparts : tot parts = c.tokens) 
           | true =>
             obtain ⟨h1, h2⟩ := wsec_ret_true hw hr
             obtain ⟨hf, hI'⟩ := conclude_spec hI hpend (fun _ => h1) (fun hx => by cases hx) h2 h
-            exact ⟨.inr ⟨_, hf⟩, hI'⟩
+            exact ⟨.inr hf, hI'⟩
           | false =>
             obtain ⟨h1, h2⟩ := wsec_ret_false hw hr
             obtain ⟨hf, hI'⟩ := conclude_spec hI hpend (fun hx => by cases hx) (fun _ => ⟨h1, h2⟩) (h1 ▸ evolves_refl _) h
-            exact ⟨.inr ⟨_, hf⟩, hI'⟩
+            exact ⟨.inr hf, hI'⟩
         | retry =>
           simp only [Option.some.injEq] at h
           subst h
@@ -520,7 +530,7 @@ theorem cstep_spec {c : Cfg} {parts : List Nat} (hparts : tot parts = c.tokens) 
     · rename_i hg
       simp only [Option.some.injEq] at h
       subst h
-      exact ⟨.inr ⟨.nextRet i ok, by simp only [fstep, hg, if_true]⟩, cinv_same_profiles hI rfl rfl rfl rfl rfl⟩
+      exact ⟨.inr (by simp only [feOf, fstep, hg, if_true]), cinv_same_profiles hI rfl rfl rfl rfl rfl⟩
     · cases h
   | lsec i =>
     simp only [cstep] at h
@@ -535,7 +545,7 @@ theorem cstep_spec {c : Cfg} {parts : List Nat} (hparts : tot parts = c.tokens) 
         simp only [Option.map_some, Option.some.injEq] at h
         subst h
         obtain ⟨k1, k2⟩ := step_chk hs
-        exact ⟨.inr ⟨.load i, by simp only [fstep, hg.1, if_true, hs, Option.map_some]⟩,
+        exact ⟨.inr (by simp only [feOf, fstep, hg.1, if_true, hs, Option.map_some]),
           cinv_same_profiles hI rfl rfl rfl k1 k2⟩
     · cases h
   | leftRet i l =>
@@ -544,13 +554,13 @@ theorem cstep_spec {c : Cfg} {parts : List Nat} (hparts : tot parts = c.tokens) 
     · rename_i hg
       simp only [Option.some.injEq] at h
       subst h
-      exact ⟨.inr ⟨.leftRet i l, by simp only [fstep, hg, if_true]⟩, cinv_same_profiles hI rfl rfl rfl rfl rfl⟩
+      exact ⟨.inr (by simp only [feOf, fstep, hg, if_true]), cinv_same_profiles hI rfl rfl rfl rfl rfl⟩
     · cases h
   | other e =>
     have key : ∀ e', (∀ i, e' ≠ .tokOk i) → (∀ i, e' ≠ .start i) → (∀ i, e' ≠ .tokEnd i) → (∀ i l, e' ≠ .chk i l) →
         (if s.f.pend[evInst e']? = some Pend.idle ∧ s.w[evInst e']? = some none then
           (step c s.f.base e').map (fun b => { s with f := { s.f with base := b } }) else none) = some s' →
-        (s'.f = s.f ∨ ∃ fe, fstep c s.f fe = some s'.f) ∧ CInv c s' := by
+        (s'.f = s.f ∨ fstep c s.f (.other e') = some s'.f) ∧ CInv c s' := by
       intro e' n1 n2 n3 n4 h'
       split at h'
       · rename_i hg
@@ -561,7 +571,7 @@ theorem cstep_spec {c : Cfg} {parts : List Nat} (hparts : tot parts = c.tokens) 
           simp only [Option.map_some, Option.some.injEq] at h'
           subst h'
           obtain ⟨k1, k2⟩ := step_keeps hs n1 n2
-          refine ⟨.inr ⟨.other e', ?_⟩, cinv_same_profiles hI rfl rfl rfl k1 k2⟩
+          refine ⟨.inr ?_, cinv_same_profiles hI rfl rfl rfl k1 k2⟩
           cases e' with
           | chk i l => exact absurd rfl (n4 i l)
           | tokOk i => exact absurd rfl (n1 i)
@@ -590,7 +600,7 @@ theorem cstep_spec {c : Cfg} {parts : List Nat} (hparts : tot parts = c.tokens) 
           simp only [Option.map_some, Option.some.injEq] at h
           subst h
           obtain ⟨k1, k2⟩ := step_start hs
-          refine ⟨.inr ⟨.other (.start i), by simp only [fstep, evInst, hg.1, if_true, hs, Option.map_some]⟩, ?_⟩
+          refine ⟨.inr (by simp only [feOf, fstep, evInst, hg.1, if_true, hs, Option.map_some]), ?_⟩
           refine ⟨by simp only [k1]; exact hI.shared, ?_, ?_, by simp [hI.lens]⟩
           · simp only [k2, map_set_tot, hparts, hI.own]
           · intro j seen hj
@@ -637,11 +647,50 @@ theorem comp_refines {c : Cfg} {parts : List Nat} (hparts : tot parts = c.tokens
       obtain ⟨hf, hI1⟩ := cstep_spec hparts hI hs1
       obtain ⟨⟨fevs, hr, hl⟩, hIs⟩ := comp_refines hparts es s1 s hI1 h
       refine ⟨?_, hIs⟩
-      rcases hf with hb | ⟨fe, hfe⟩
+      rcases hf with hb | hfe
       · exact ⟨fevs, by rw [← hb]; exact hr, by simp only [List.length_cons]; omega⟩
-      · refine ⟨fe :: fevs, ?_, by simp only [List.length_cons]; omega⟩
+      · refine ⟨feOf e :: fevs, ?_, by simp only [List.length_cons]; omega⟩
         simp only [frun, hfe]
         exact hr
     · cases h
+
+/-- the invariant at the end of a run from the initial state -/
+theorem comp_inv {c : Cfg} {parts : List Nat} (hparts : tot parts = c.tokens) {evs : List CEv} {s : CSt}
+    (h : crun c parts (cinitWith c parts) evs = some s) : CInv c s :=
+  (comp_refines hparts evs _ s (cinit_inv c parts hparts) h).2
+
+theorem comp_reaches {c : Cfg} {parts : List Nat} (hparts : tot parts = c.tokens) {evs : List CEv} {s : CSt}
+    (h : crun c parts (cinitWith c parts) evs = some s) : ∃ fevs : List FEv, frun c (finit c) fevs = some s.f :=
+  let ⟨⟨fevs, hr, _⟩, _⟩ := comp_refines hparts evs _ s (cinit_inv c parts hparts) h
+  ⟨fevs, hr⟩
+
+/-- what the atomic access of the fine pool leaves in `pend`: the answer of the token counter -/
+theorem fstep_inc_pend {c : Cfg} {f f' : FSt} {i : Nat} (h : fstep c f (.inc i) = some f') :
+    f'.pend[i]? = some (.drew (decide (0 < f.base.left c i))) := by
+  simp only [fstep] at h
+  split at h
+  · rename_i hp
+    cases hs : step c f.base (if decide (0 < f.base.left c i) = true then Ev.tokOk i else Ev.tokEnd i) with
+    | none => rw [hs] at h; cases h
+    | some b =>
+      rw [hs] at h
+      simp only [Option.map_some, Option.some.injEq] at h
+      subst h
+      exact getElem?_set_self' _ _ (lt_of_get hp)
+  · cases h
+
+/-- a section of `Next()` (reader or writer) either does not conclude (the fine pool does not move) or hands the loop
+exactly the answer of the pool's token counter: `ok` iff a token is left in SOME part -/
+theorem section_answer {c : Cfg} {parts : List Nat} (hparts : tot parts = c.tokens) {s s' : CSt} (hI : CInv c s) {i : Nat}
+    {e : CEv} (he : e = .rsec i ∨ e = .wsec i) (h : cstep c parts s e = some s') :
+    s'.f = s.f ∨ s'.f.pend[i]? = some (.drew (decide (0 < tot (s.prof c i)))) := by
+  obtain ⟨hf, _⟩ := cstep_spec hparts hI h
+  rcases hf with hb | hfe
+  · exact .inl hb
+  · right
+    have : feOf e = .inc i := by rcases he with rfl | rfl <;> rfl
+    rw [this] at hfe
+    rw [← left_eq hI i]
+    exact fstep_inc_pend hfe
 
 end Pandora.Proofs.C03Comp
